@@ -700,6 +700,18 @@ fn codegen_fn_scale(units: &Vec<UnitDef>) -> TokenStream {
         if unit.scale.is_some() {
             let unit_ident = &unit.unit_ident;
             let unit_scale: &syn::Lit = unit.scale.as_ref().unwrap();
+            // `Amnt!` casts the literal (`$lit as f64`), which types an
+            // unsuffixed integer literal as i32: write it as float literal
+            // so that integer scales beyond i32::MAX keep their value.
+            let unit_scale: syn::Lit = match unit_scale {
+                syn::Lit::Int(i) if i.suffix().is_empty() => {
+                    syn::Lit::Float(syn::LitFloat::new(
+                        &format!("{}.", i.base10_digits()),
+                        i.span(),
+                    ))
+                }
+                lit => lit.clone(),
+            };
             code = quote!(
                 #code
                 Self::#unit_ident => Amnt!(#unit_scale),
